@@ -132,6 +132,98 @@ fn object_method(a: &[String]) -> String {
     }
 }
 
+fn heap_cells(state: &State) -> usize {
+    let mut n = 0;
+    while state.heap.dereference(&HeapIndex::from(n)).is_ok() { n += 1; }
+    n
+}
+
+/// vmstep array <existing cells 0|1> <size> <initializer>
+fn array(a: &[String]) -> String {
+    let existing: usize = a[0].parse().unwrap();
+    let program = prog(filler_code(6), vec![]);
+    let mut state = plain_state();
+    if existing == 1 { state.heap = Heap::from(vec![HeapObject::from_pointers(vec![Pointer::Null])]); }
+    let size_before = state.heap.verif_size();
+    state.operand_stack.push(parse(&a[1]));
+    state.operand_stack.push(parse(&a[2]));
+    let r = eval_array(&program, &mut state);
+    let grew = if state.heap.verif_size() > size_before { 1 } else { 0 };
+    match r {
+        Err(_) => format!("ERR cells={} grew={}", heap_cells(&state), grew),
+        Ok(()) => {
+            let top = state.operand_stack.pop().unwrap();
+            let (len, cells) = match top {
+                Pointer::Reference(i) => match state.heap.dereference(&i) {
+                    Ok(HeapObject::Array(arr)) => (arr.length(), arr.iter().map(show).collect::<Vec<String>>()),
+                    _ => (usize::MAX, vec![]),
+                },
+                _ => (usize::MAX, vec![]),
+            };
+            format!("OK {} len={} [{}] cells={} grew={}", show(&top), len, cells.join(" "), heap_cells(&state), grew)
+        }
+    }
+}
+
+/// vmstep object <slots 0-2> <with method 0|1> <const index> <parent> <field value>*
+fn object(a: &[String]) -> String {
+    let nslots: usize = a[0].parse().unwrap();
+    let with_method = a[1] == "1";
+    let index: u16 = a[2].parse().unwrap();
+    let names = ["x", "y"];
+    let nmembers = nslots + if with_method { 1 } else { 0 };
+    let first_name = (1 + nmembers) as u16;
+    let mut constants = vec![ProgramObject::Class((1..=nmembers as u16).map(ConstantPoolIndex::new).collect())];
+    for i in 0..nslots { constants.push(ProgramObject::Slot { name: ConstantPoolIndex::new(first_name + i as u16) }); }
+    if with_method {
+        constants.push(ProgramObject::Method { name: ConstantPoolIndex::new(first_name + nslots as u16), parameters: Arity::new(2), locals: Size::new(0),
+                                               code: AddressRange::new(Address::from_u32(3), 1) });
+    }
+    for i in 0..nslots { constants.push(ProgramObject::String(names[i].to_string())); }
+    if with_method { constants.push(ProgramObject::String("m".to_string())); }
+    constants.push(ProgramObject::Integer(9));
+    let program = prog(filler_code(6), constants);
+    let mut state = plain_state();
+    for v in a[3..].iter() { state.operand_stack.push(parse(v)); }
+    let r = eval_object(&program, &mut state, &ConstantPoolIndex::new(index));
+    match r {
+        Err(_) => format!("ERR cells={}", heap_cells(&state)),
+        Ok(()) => {
+            let top = state.operand_stack.pop().unwrap();
+            match state.heap.dereference(&HeapIndex::from(0usize)) {
+                Ok(HeapObject::Object(o)) => format!("OK {} parent={} fields=[{}] methods=[{}] cells={}", show(&top), show(&o.parent),
+                    o.fields.iter().map(|(k, v)| format!("{}={}", k, show(v))).collect::<Vec<String>>().join(" "),
+                    o.methods.iter().map(|(k, _)| k.clone()).collect::<Vec<String>>().join(" "), heap_cells(&state)),
+                _ => "OK but no object".to_string(),
+            }
+        }
+    }
+}
+
+/// vmstep get-field|set-field <const index> <receiver> <x> <y> [<value>]; heap: #0 = object {f: x, g: y}, #1 = array [null]
+fn field_step(setting: bool, a: &[String]) -> String {
+    use indexmap::IndexMap;
+    let index: u16 = a[0].parse().unwrap();
+    let program = prog(filler_code(6), vec![ProgramObject::String("f".to_string()), ProgramObject::String("g".to_string()),
+                                             ProgramObject::String("h".to_string()), ProgramObject::Integer(1)]);
+    let mut fields = IndexMap::new();
+    fields.insert("f".to_string(), parse(&a[2]));
+    fields.insert("g".to_string(), parse(&a[3]));
+    let mut state = plain_state();
+    state.heap = Heap::from(vec![HeapObject::new_object(Pointer::Null, fields, IndexMap::new()), HeapObject::from_pointers(vec![Pointer::Null])]);
+    state.operand_stack.push(parse(&a[1]));
+    if setting { state.operand_stack.push(parse(&a[4])); }
+    let r = if setting { eval_set_field(&program, &mut state, &ConstantPoolIndex::new(index)) } else { eval_get_field(&program, &mut state, &ConstantPoolIndex::new(index)) };
+    let (f, g) = match state.heap.dereference(&HeapIndex::from(0usize)) {
+        Ok(HeapObject::Object(o)) => (o.get_field("f").map(|p| show(p)).unwrap_or("?".to_string()), o.get_field("g").map(|p| show(p)).unwrap_or("?".to_string())),
+        _ => ("?".to_string(), "?".to_string()),
+    };
+    match r {
+        Err(_) => format!("ERR f={} g={}", f, g),
+        Ok(()) => format!("OK {} f={} g={}", show(&state.operand_stack.pop().unwrap()), f, g),
+    }
+}
+
 fn main() {
     let a: Vec<String> = std::env::args().collect();
     let rest: Vec<String> = a[2..].to_vec();
@@ -141,6 +233,10 @@ fn main() {
         "array-method" => array_method(&rest),
         "call-function" => call_function(&rest),
         "object-method" => object_method(&rest),
+        "array" => array(&rest),
+        "object" => object(&rest),
+        "get-field" => field_step(false, &rest),
+        "set-field" => field_step(true, &rest),
         other => format!("unknown kernel {}", other),
     });
     match r {
